@@ -14,11 +14,12 @@
    This file holds only statements closed by lemmas of Proofs/Reach*.v, pins, examples, Print Assumptions. *)
 From Coq Require Import List Arith Bool String QArith Lia.
 From stdpp Require Import gmap.
-From RC Require Import Base.Res Model.Search Model.Reach.
-From RC Require Import Proofs.ReachSet Proofs.ReachInv Proofs.ReachMain Proofs.ReachCost Proofs.ReachFuel Proofs.ReachEdge Proofs.ReachTop.
+From RC Require Import Base.Res Base.Num Model.Search Model.SearchRun Model.Reach Model.ReachRun.
+From RC Require Import Proofs.ReachSet Proofs.ReachInv Proofs.ReachMain Proofs.ReachCost Proofs.ReachFuel Proofs.ReachEdge Proofs.ReachTop
+  Proofs.ReachQ.
 Import ListNotations.
 Import Search Reach.
-Import ReachSetP ReachInvP ReachMainP ReachCostP ReachFuelP ReachEdgeP ReachTopP.
+Import ReachSetP ReachInvP ReachMainP ReachCostP ReachFuelP ReachEdgeP ReachTopP ReachQP.
 
 (* ------------------------------------------------------------------ the specification side is executable *)
 Theorem c05_reachb_spec : forall ok d g a b, reachb ok d g a b = true <-> reachable ok d g a b.
@@ -51,10 +52,13 @@ Section C05.
   Variable init_state : res St.
   Variable terminate : nat -> nat -> option string.
   Variable ok : nat -> bool.
-  (* the property's hypothesis: the restriction depends only on the edge; nothing else can fail *)
+  (* every edge joins two vertices of the network *)
+  Hypothesis Hwf : wf_graph g.
+  (* the property's hypothesis: the restriction depends only on the edge; nothing else can fail (the estimate is
+     only ever asked about vertices of the network) *)
   Hypothesis Hfr : forall e st prev, frontier e st prev = Ok (ok e).
   Hypothesis Htr : forall d e prev st, exists r, traverse d e prev st = Ok r.
-  Hypothesis Hest : forall a b st, exists c, estimate a b st = Ok c.
+  Hypothesis Hest : forall a b st, a < nverts g -> b < nverts g -> exists c, estimate a b st = Ok c.
   Hypothesis Hinit : exists i0, init_state = Ok i0.
 
   Variable d : dir.
@@ -74,10 +78,11 @@ Section C05.
   Theorem c05_inv_init : forall target h0, (forall t, target = Some t -> t <> source) ->
       Inv target (mkS (St:=St) [(source, h0)] {[source := czero]} ∅ 0).
   Proof. intros. apply init_inv. assumption. Qed.
-  Theorem c05_inv_step : forall target init s s', Inv target s -> step target init s = Ok (inl s') -> Inv target s'.
+  Theorem c05_inv_step : forall target init s s', (forall t, target = Some t -> t < nverts g) ->
+      Inv target s -> step target init s = Ok (inl s') -> Inv target s'.
   Proof.
-    intros target init s s' HI Hst.
-    pose proof (step_spec clt cadd czero cfloor g frontier traverse estimate terminate ok Hfr Htr Hest d source target init s HI) as H.
+    intros target init s s' Htin HI Hst.
+    pose proof (step_spec clt cadd czero cfloor g frontier traverse estimate terminate ok Hwf Hfr Htr Hest d source target Htin init s HI) as H.
     rewrite Hst in H. apply H.
   Qed.
 
@@ -93,27 +98,27 @@ Section C05.
   Proof. exact (exhaustion_closed g ok d source). Qed.
 
   (* (3a) NoPath is reported only for an unreachable destination *)
-  Theorem c05_nopath_only_if_unreachable : forall fuel t,
+  Theorem c05_nopath_only_if_unreachable : forall fuel t, t < nverts g ->
       run_vertex_oriented fuel d source (Some t) = Err "nopath"%string -> ~ reachable ok d g source t.
-  Proof. exact (vertex_nopath_unreachable clt cadd czero cfloor g frontier traverse estimate init_state terminate ok Hfr Htr Hest Hinit d source Hsrc). Qed.
+  Proof. exact (vertex_nopath_unreachable clt cadd czero cfloor g frontier traverse estimate init_state terminate ok Hwf Hfr Htr Hest Hinit d source Hsrc). Qed.
 
   (* (3b) an Ok answer is one non-empty permitted walk from the origin to the destination: never empty, never partial *)
-  Theorem c05_ok_is_route : forall fuel t r, t <> source ->
+  Theorem c05_ok_is_route : forall fuel t r, t <> source -> t < nverts g ->
       run_vertex_oriented fuel d source (Some t) = Ok r ->
       reachable ok d g source t
       /\ exists tree route, r_trees r = [tree] /\ r_routes r = [route] /\ route <> []
                             /\ pwalk ok d g source (map et_edge route) t.
-  Proof. exact (vertex_ok_route clt cadd czero cfloor g frontier traverse estimate init_state terminate ok Hfr Htr Hest Hinit d source Hsrc). Qed.
+  Proof. exact (vertex_ok_route clt cadd czero cfloor g frontier traverse estimate init_state terminate ok Hwf Hfr Htr Hest Hinit d source Hsrc). Qed.
 
   (* (3c) an unreachable destination never yields Ok, whatever the fuel: NoPath, or the loop was cut off *)
-  Theorem c05_unreachable_never_ok : forall fuel t, t <> source -> ~ reachable ok d g source t ->
+  Theorem c05_unreachable_never_ok : forall fuel t, t <> source -> t < nverts g -> ~ reachable ok d g source t ->
       (forall a b, terminate a b = None) ->
       run_vertex_oriented fuel d source (Some t) = Err "nopath"%string
       \/ run_vertex_oriented fuel d source (Some t) = OutOfFuel.
-  Proof. exact (unreachable_never_ok clt cadd czero cfloor g frontier traverse estimate init_state terminate ok Hfr Htr Hest Hinit d source Hsrc). Qed.
+  Proof. exact (unreachable_never_ok clt cadd czero cfloor g frontier traverse estimate init_state terminate ok Hwf Hfr Htr Hest Hinit d source Hsrc). Qed.
 
   (* every outcome of a search with a destination, including the errors that are not NoPath *)
-  Theorem c05_vertex_outcomes : forall fuel t, t <> source ->
+  Theorem c05_vertex_outcomes : forall fuel t, t <> source -> t < nverts g ->
       match run_vertex_oriented fuel d source (Some t) with
       | Ok r => reachable ok d g source t
                 /\ exists tree route, r_trees r = [tree] /\ r_routes r = [route] /\ route <> []
@@ -124,7 +129,7 @@ Section C05.
       | Panic _ => False
       | OutOfFuel => True
       end.
-  Proof. exact (vertex_target_spec clt cadd czero cfloor g frontier traverse estimate init_state terminate ok Hfr Htr Hest Hinit d source Hsrc). Qed.
+  Proof. exact (vertex_target_spec clt cadd czero cfloor g frontier traverse estimate init_state terminate ok Hwf Hfr Htr Hest Hinit d source Hsrc). Qed.
 
   (* ---------------- with the cost order: total preorder, label + edge cost >= label ---------------- *)
   Notation le := (le clt).
@@ -133,19 +138,19 @@ Section C05.
   Hypothesis Hinfl : forall dd e prev st ac tc st' a, traverse dd e prev st = Ok (ac, tc, st') -> le a (cadd a (cfloor (cadd ac tc))).
 
   (* (3d) the equivalence, for any heuristic and weight factor; fuel is a premise here (A* may re-open vertices) *)
-  Theorem c05_answer_iff_partial : (forall a b, terminate a b = None) -> forall fuel t, t <> source ->
+  Theorem c05_answer_iff_partial : (forall a b, terminate a b = None) -> forall fuel t, t <> source -> t < nverts g ->
       run_a_star fuel d source (Some t) <> OutOfFuel ->
       ((exists r, run_vertex_oriented fuel d source (Some t) = Ok r) <-> reachable ok d g source t)
       /\ (run_vertex_oriented fuel d source (Some t) = Err "nopath"%string <-> ~ reachable ok d g source t).
   Proof.
-    intros Hterm. exact (answer_iff_partial clt cadd czero cfloor g frontier traverse estimate init_state terminate ok Hfr Htr Hest Hinit
+    intros Hterm. exact (answer_iff_partial clt cadd czero cfloor g frontier traverse estimate init_state terminate ok Hwf Hfr Htr Hest Hinit
                             Hterm Hasym Hletrans Hinfl d source Hsrc).
   Qed.
 
   (* (5) a destination-less search that returns has dom tree = {v | reachable from source} \ {source} *)
   Theorem c05_tree_is_reachable_set : forall fuel tree it, run_a_star fuel d source None = Ok (tree, it) ->
       forall v, is_Some (tree !! v) <-> (reachable ok d g source v /\ v <> source).
-  Proof. exact (tree_is_reachable_set clt cadd czero cfloor g frontier traverse estimate init_state terminate ok Hfr Htr Hest Hinit
+  Proof. exact (tree_is_reachable_set clt cadd czero cfloor g frontier traverse estimate init_state terminate ok Hwf Hfr Htr Hest Hinit
                   Hasym Hletrans Hinfl d source Hsrc). Qed.
 
   (* (6) ... and, when edge costs are edge-local and + is monotone, every label is the least cost of a permitted walk *)
@@ -159,35 +164,36 @@ Section C05.
           /\ forall es, pwalk ok d g source es v -> le l (wcostC cadd ecost es czero).
   Proof.
     intros ecost Hloc Hmono.
-    exact (tree_labels_least clt cadd czero cfloor g frontier traverse estimate init_state terminate ok Hfr Htr Hest Hinit
+    exact (tree_labels_least clt cadd czero cfloor g frontier traverse estimate init_state terminate ok Hwf Hfr Htr Hest Hinit
              Hasym Hletrans Hinfl d source Hsrc ecost Hloc Hmono).
   Qed.
 
   (* (4) termination for Dijkstra-like runs: zero estimate, x + 0 ~ x.  |universe| + 1 iterations suffice *)
   Section Dijkstra.
-    Hypothesis Hest0 : forall a b st, estimate a b st = Ok czero.
+    Hypothesis Hest0 : forall a b st, a < nverts g -> b < nverts g -> estimate a b st = Ok czero.
     Hypothesis Hzero : forall x, le (cadd x czero) x /\ le x (cadd x czero).
     Hypothesis Hterm : forall a b, terminate a b = None.
 
-    Theorem c05_dijkstra_fuel : forall target fuel, (forall t, target = Some t -> t <> source) ->
+    Theorem c05_dijkstra_fuel : forall target fuel, (forall t, target = Some t -> t <> source /\ t < nverts g) ->
         size (universe d g source) < fuel -> run_a_star fuel d source target <> OutOfFuel.
     Proof.
-      intros target fuel Hts. exact (dijkstra_fuel clt cadd czero cfloor g frontier traverse estimate init_state terminate ok Hfr Htr
-                                       Hest0 Hinit Hzero Hasym Hletrans Hinfl d source target Hsrc Hts fuel).
+      intros target fuel Hts. exact (dijkstra_fuel clt cadd czero cfloor g frontier traverse estimate init_state terminate ok Hwf Hfr Htr
+                                       Hest0 Hinit Hzero Hasym Hletrans Hinfl d source target (fun t H => proj2 (Hts t H)) Hsrc
+                                       (fun t H => proj1 (Hts t H)) fuel).
     Qed.
 
-    Theorem c05_dijkstra_answer_iff : forall fuel t, t <> source -> size (universe d g source) < fuel ->
+    Theorem c05_dijkstra_answer_iff : forall fuel t, t <> source -> t < nverts g -> size (universe d g source) < fuel ->
         ((exists r, run_vertex_oriented fuel d source (Some t) = Ok r) <-> reachable ok d g source t)
         /\ (run_vertex_oriented fuel d source (Some t) = Err "nopath"%string <-> ~ reachable ok d g source t).
     Proof.
-      exact (dijkstra_answer_iff clt cadd czero cfloor g frontier traverse estimate init_state terminate ok Hfr Htr Hest0 Hinit
+      exact (dijkstra_answer_iff clt cadd czero cfloor g frontier traverse estimate init_state terminate ok Hwf Hfr Htr Hest0 Hinit
                Hterm Hzero Hasym Hletrans Hinfl d source Hsrc).
     Qed.
 
     Theorem c05_dijkstra_notarget_returns : forall fuel, size (universe d g source) < fuel ->
         exists r, run_vertex_oriented fuel d source None = Ok r.
     Proof.
-      exact (dijkstra_notarget_returns clt cadd czero cfloor g frontier traverse estimate init_state terminate ok Hfr Htr Hest0 Hinit
+      exact (dijkstra_notarget_returns clt cadd czero cfloor g frontier traverse estimate init_state terminate ok Hwf Hfr Htr Hest0 Hinit
                Hterm Hzero Hasym Hletrans Hinfl d source Hsrc).
     Qed.
   End Dijkstra.
@@ -198,26 +204,25 @@ Section C05.
     Notation run_edge := (run_edge_oriented czero g traverse init_state d (run_vertex_oriented fuel d)).
     Variables (e1 : nat) (ed1 : edge).
     Hypothesis He1 : get_edge g e1 = Some ed1.
-    Hypothesis Hb1 : key_vertex d ed1 < nverts g.
 
     Theorem c05_edge_nopath_only_if_unreachable : forall e2 ed2, get_edge g e2 = Some ed2 -> e1 <> e2 ->
         run_edge e1 (Some e2) = Err "nopath"%string -> ~ reachable ok d g (key_vertex d ed1) (term_vertex d ed2).
-    Proof. exact (edge_nopath_unreachable clt cadd czero cfloor g frontier traverse estimate init_state terminate ok Hfr Htr Hest Hinit
-                    d fuel e1 ed1 He1 Hb1). Qed.
+    Proof. exact (edge_nopath_unreachable clt cadd czero cfloor g frontier traverse estimate init_state terminate ok Hwf Hfr Htr Hest Hinit
+                    d fuel e1 ed1 He1). Qed.
 
     Theorem c05_edge_ok_is_route : forall e2 ed2 r, get_edge g e2 = Some ed2 -> e1 <> e2 ->
         run_edge e1 (Some e2) = Ok r ->
         reachable ok d g (key_vertex d ed1) (term_vertex d ed2)
         /\ exists route mid, r_routes r = [route] /\ map et_edge route = e1 :: mid ++ [e2]
                              /\ pwalk ok d g (key_vertex d ed1) mid (term_vertex d ed2).
-    Proof. exact (edge_ok_route clt cadd czero cfloor g frontier traverse estimate init_state terminate ok Hfr Htr Hest Hinit
-                    d fuel e1 ed1 He1 Hb1). Qed.
+    Proof. exact (edge_ok_route clt cadd czero cfloor g frontier traverse estimate init_state terminate ok Hwf Hfr Htr Hest Hinit
+                    d fuel e1 ed1 He1). Qed.
 
     Theorem c05_edge_unreachable_never_ok : forall e2 ed2, get_edge g e2 = Some ed2 -> e1 <> e2 ->
         ~ reachable ok d g (key_vertex d ed1) (term_vertex d ed2) -> (forall a b, terminate a b = None) ->
         run_edge e1 (Some e2) = Err "nopath"%string \/ run_edge e1 (Some e2) = OutOfFuel.
-    Proof. exact (edge_unreachable_never_ok clt cadd czero cfloor g frontier traverse estimate init_state terminate ok Hfr Htr Hest Hinit
-                    d fuel e1 ed1 He1 Hb1). Qed.
+    Proof. exact (edge_unreachable_never_ok clt cadd czero cfloor g frontier traverse estimate init_state terminate ok Hwf Hfr Htr Hest Hinit
+                    d fuel e1 ed1 He1). Qed.
 
     Theorem c05_edge_notarget_tree : forall r, run_edge e1 None = Ok r ->
         exists tree, r_trees r = [tree] /\
@@ -225,8 +230,8 @@ Section C05.
             (reachable ok d g (key_vertex d ed1) v /\ v <> key_vertex d ed1)
             \/ (v = key_vertex d ed1 /\ term_vertex d ed1 <> key_vertex d ed1
                 /\ ~ reachable ok d g (key_vertex d ed1) (term_vertex d ed1)).
-    Proof. exact (edge_notarget_tree clt cadd czero cfloor g frontier traverse estimate init_state terminate ok Hfr Htr Hest Hinit
-                    d fuel e1 ed1 He1 Hb1 Hasym Hletrans Hinfl). Qed.
+    Proof. exact (edge_notarget_tree clt cadd czero cfloor g frontier traverse estimate init_state terminate ok Hwf Hfr Htr Hest Hinit
+                    d fuel e1 ed1 He1 Hasym Hletrans Hinfl). Qed.
   End EdgeOriented.
 End C05.
 
@@ -234,32 +239,68 @@ End C05.
 Theorem c05_universe_size : forall d g a, wf_graph g -> a < nverts g -> size (universe d g a) <= nverts g.
 Proof. exact universe_size. Qed.
 
+(* ------------------------------------------------------------------ the model that the stream executes *)
+(* The hypotheses above are met by the table-driven configuration of Model/SearchRun.v over exact rationals for
+   every world of the class the stream generates, every query, heuristic table, weight factor and fuel; the
+   restriction is the forbid table (RR.okb), which is also what the S lines of the run evaluate reachb with. *)
+Section C05Q.
+  Variable w : SR.world QN.
+  Variable q : SR.query QN.
+  Hypothesis Hclass : RR.in_class w = true.
+  Hypothesis Hedges : RR.edges_in_graph w = true.
+  Variables (fuel s : nat).
+  Hypothesis Hs : s < SR.w_n QN w.
+  Notation g := (SR.graph_of QN w).
+  Notation d := (SR.q_dir QN q).
+
+  Theorem c05_q_nopath_only_if_unreachable : forall t, t < SR.w_n QN w ->
+      SR.run_vertex QN fuel w q s (Some t) = Err "nopath"%string -> ~ reachable (RR.okb w) d g s t.
+  Proof. exact (q_nopath_only_if_unreachable w q Hclass Hedges fuel s Hs). Qed.
+  Theorem c05_q_ok_is_route : forall t r, t <> s -> t < SR.w_n QN w ->
+      SR.run_vertex QN fuel w q s (Some t) = Ok r ->
+      reachable (RR.okb w) d g s t
+      /\ exists tree route, r_trees r = [tree] /\ r_routes r = [route] /\ route <> []
+                            /\ pwalk (RR.okb w) d g s (map et_edge route) t.
+  Proof. exact (q_ok_is_route w q Hclass Hedges fuel s Hs). Qed.
+  Theorem c05_q_answer_iff_partial : forall t, t <> s -> t < SR.w_n QN w ->
+      SR.run_vertex QN fuel w q s (Some t) <> OutOfFuel ->
+      ((exists r, SR.run_vertex QN fuel w q s (Some t) = Ok r) <-> reachable (RR.okb w) d g s t)
+      /\ (SR.run_vertex QN fuel w q s (Some t) = Err "nopath"%string <-> ~ reachable (RR.okb w) d g s t).
+  Proof. exact (q_answer_iff_partial w q Hclass Hedges fuel s Hs). Qed.
+  Theorem c05_q_tree_is_reachable_set : forall r, SR.run_vertex QN fuel w q s None = Ok r ->
+      exists tree, r_trees r = [tree] /\ forall v, is_Some (tree !! v) <-> (reachable (RR.okb w) d g s v /\ v <> s).
+  Proof. exact (q_tree_is_reachable_set w q Hclass Hedges fuel s Hs). Qed.
+End C05Q.
+
 (* ------------------------------------------------------------------ statement pins *)
 Check @c05_nopath_only_if_unreachable :
   forall (C St : Type) clt cadd czero cfloor g frontier traverse estimate init_state terminate ok,
+    wf_graph g ->
     (forall e st prev, frontier e st prev = Ok (ok e)) ->
     (forall d e prev st, exists r, traverse d e prev st = Ok r) ->
-    (forall a b st, exists c, estimate a b st = Ok c) ->
+    (forall a b st, a < nverts g -> b < nverts g -> exists c, estimate a b st = Ok c) ->
     (exists i0, init_state = Ok i0) ->
-    forall d source, source < nverts g -> forall fuel t,
+    forall d source, source < nverts g -> forall fuel t, t < nverts g ->
       @run_vertex_oriented C St clt cadd czero cfloor g frontier traverse estimate init_state terminate fuel d source (Some t)
         = Err "nopath"%string -> ~ reachable ok d g source t.
 Check @c05_ok_is_route :
   forall (C St : Type) clt cadd czero cfloor g frontier traverse estimate init_state terminate ok,
+    wf_graph g ->
     (forall e st prev, frontier e st prev = Ok (ok e)) ->
     (forall d e prev st, exists r, traverse d e prev st = Ok r) ->
-    (forall a b st, exists c, estimate a b st = Ok c) ->
+    (forall a b st, a < nverts g -> b < nverts g -> exists c, estimate a b st = Ok c) ->
     (exists i0, init_state = Ok i0) ->
-    forall d source, source < nverts g -> forall fuel t r, t <> source ->
+    forall d source, source < nverts g -> forall fuel t r, t <> source -> t < nverts g ->
       @run_vertex_oriented C St clt cadd czero cfloor g frontier traverse estimate init_state terminate fuel d source (Some t) = Ok r ->
       reachable ok d g source t
       /\ exists tree route, r_trees r = [tree] /\ r_routes r = [route] /\ route <> []
                             /\ pwalk ok d g source (map et_edge route) t.
 Check @c05_tree_is_reachable_set :
   forall (C St : Type) clt cadd czero cfloor g frontier traverse estimate init_state terminate ok,
+    wf_graph g ->
     (forall e st prev, frontier e st prev = Ok (ok e)) ->
     (forall d e prev st, exists r, traverse d e prev st = Ok r) ->
-    (forall a b st, exists c, estimate a b st = Ok c) ->
+    (forall a b st, a < nverts g -> b < nverts g -> exists c, estimate a b st = Ok c) ->
     (exists i0, init_state = Ok i0) ->
     forall d source, source < nverts g ->
     (forall a b, clt a b = true -> clt b a = false) ->
@@ -270,6 +311,7 @@ Check @c05_tree_is_reachable_set :
       forall v, is_Some (tree !! v) <-> (reachable ok d g source v /\ v <> source).
 Check @c05_dijkstra_answer_iff :
   forall (C St : Type) clt cadd czero cfloor g frontier traverse estimate init_state terminate ok,
+    wf_graph g ->
     (forall e st prev, frontier e st prev = Ok (ok e)) ->
     (forall d e prev st, exists r, traverse d e prev st = Ok r) ->
     (exists i0, init_state = Ok i0) ->
@@ -277,10 +319,10 @@ Check @c05_dijkstra_answer_iff :
     (forall a b, clt a b = true -> clt b a = false) ->
     (forall a b c, clt b a = false -> clt c b = false -> clt c a = false) ->
     (forall dd e prev st ac tc st' a, traverse dd e prev st = Ok (ac, tc, st') -> clt (cadd a (cfloor (cadd ac tc))) a = false) ->
-    (forall a b st, estimate a b st = Ok czero) ->
+    (forall a b st, a < nverts g -> b < nverts g -> estimate a b st = Ok czero) ->
     (forall x, clt x (cadd x czero) = false /\ clt (cadd x czero) x = false) ->
     (forall a b, terminate a b = None) ->
-    forall fuel t, t <> source -> size (universe d g source) < fuel ->
+    forall fuel t, t <> source -> t < nverts g -> size (universe d g source) < fuel ->
       ((exists r, @run_vertex_oriented C St clt cadd czero cfloor g frontier traverse estimate init_state terminate fuel d source (Some t) = Ok r)
          <-> reachable ok d g source t)
       /\ (@run_vertex_oriented C St clt cadd czero cfloor g frontier traverse estimate init_state terminate fuel d source (Some t)
@@ -309,11 +351,15 @@ Module C05Example.
   Proof. intros x. rewrite !Nat.ltb_ge. lia. Qed.
 
   (* the hypotheses of every theorem above are met by this instance, so for every fuel above |universe| ... *)
-  Example c05_instance : forall fuel t, t <> 0 -> size (universe Forward gx 0) < fuel ->
+  Lemma wf_gx : wf_graph gx.
+  Proof. intros e Hin. simpl in Hin. repeat (destruct Hin as [<-|Hin]; [simpl; lia|]). destruct Hin. Qed.
+
+  Example c05_instance : forall fuel t, t <> 0 -> t < 5 -> size (universe Forward gx 0) < fuel ->
       ((exists r, runx fuel Forward 0 (Some t) = Ok r) <-> reachable okx Forward gx 0 t)
       /\ (runx fuel Forward 0 (Some t) = Err "nopath"%string <-> ~ reachable okx Forward gx 0 t).
   Proof.
     apply (c05_dijkstra_answer_iff Nat.ltb Nat.add 0 floorx gx frontierx traversex estimatex (Ok 0) (fun _ _ => None) okx).
+    - exact wf_gx.
     - reflexivity.
     - intros. eexists. reflexivity.
     - eexists. reflexivity.
@@ -372,6 +418,10 @@ Print Assumptions c05_edge_ok_is_route.
 Print Assumptions c05_edge_unreachable_never_ok.
 Print Assumptions c05_edge_notarget_tree.
 Print Assumptions c05_universe_size.
+Print Assumptions c05_q_nopath_only_if_unreachable.
+Print Assumptions c05_q_ok_is_route.
+Print Assumptions c05_q_answer_iff_partial.
+Print Assumptions c05_q_tree_is_reachable_set.
 Print Assumptions C05Example.c05_instance.
 Print Assumptions C05Example.c05_both_branches.
 Print Assumptions C05Example.c05_tree_example.
